@@ -396,6 +396,18 @@ def rule_reg_live(db: ProgramDB) -> List[Instance]:
                         line=reads[0].lineno if reads else fn.lineno))
     if n_decl < 3:
         raise AnalysisError("declaration functions of the predicate / entity modules not found")
+    # (a2) nothing that reads the registry is memoised: which stores exist is a fact about the moment
+    memo_reads = []
+    for fn in db.all_functions():
+        if any("lru_cache" in d or d.endswith("cache") or "cached_property" in d for d in fn.decorators):
+            if any(_is_registry_expr(db, fn, x) for x in own_nodes(fn.node)):
+                memo_reads.append(fn)
+    for fn in memo_reads:
+        out.append(inst("REG-LIVE", VIOLATION, fn, f"{fn.short}[registry read is not memoised]",
+                        f"{fn.short} reads the registry and is memoised ({', '.join(fn.decorators)}): the list of per-class stores of the first evaluation is "
+                        f"what every later evaluation of the variable reads, so the first instance of a new subclass is never seen by it", line=fn.lineno))
+    if not memo_reads:
+        out.append(inst("REG-LIVE", HOLDS, db.cls("Variable"), "Variable[registry reads are not memoised]", "no memoised function reads the registry"))
     # (b)
     var = db.cls("Variable")
     takers = []
@@ -418,8 +430,19 @@ def rule_reg_live(db: ProgramDB) -> List[Instance]:
     # (c)
     qod = db.cls("QueryObjectDescriptor")
     r = qod.methods.get("_reset_only_my_cache_")
-    reaches = r is not None and any(isinstance(l, ast.For) and "selected_variables" in unparse(l.iter) and any(
-        isinstance(c, ast.Call) and call_attr(c) in ("_reset_only_my_cache_", "_reset_cache_") for c in ast.walk(l)) for l in own_nodes(r.node))
+    def visits_all_variables(l: ast.For) -> bool:
+        """the loop over the selected expressions resets every variable an expression is built on (its parent variable, the
+        operands of a mapping), not only the expression's own `_var_`"""
+        for c in ast.walk(l):
+            if isinstance(c, ast.Call) and call_attr(c) == "_reset_cache_":
+                return True          # the recursive reset
+            if isinstance(c, ast.Call) and call_attr(c) == "_reset_only_my_cache_":
+                inner = [x for x in ast.walk(l) if isinstance(x, ast.For) and x is not l and any(y is c for y in ast.walk(x))]
+                if any(any(isinstance(a, ast.Attribute) and a.attr in ("_all_variable_instances_", "_unique_variables_", "_descendants_") for a in ast.walk(x.iter))
+                       for x in inner):
+                    return True
+        return False
+    reaches = r is not None and any(isinstance(l, ast.For) and "selected_variables" in unparse(l.iter) and visits_all_variables(l) for l in own_nodes(r.node))
     linked = False
     if not reaches:
         # or the selected variables are linked below the descriptor
